@@ -546,7 +546,7 @@ def sibling_call_sites(ctx: Ctx, rule: str, callees: Iterable[str], what: str) -
     return n
 
 
-def kinds_not_confused(ctx: Ctx, rule: str, modules: Iterable[str], what: str) -> int:
+def kinds_not_confused(ctx: Ctx, rule: str, modules: Iterable[str], what: str, callees: Iterable[str] = ()) -> int:
     """The package gives each kind of name its own type (NewType / class): LocalDepPath (a name as written in a function),
     CanonicalPath (a resolved object), DDSPath (a store path), PyHash (a signature), ...  mypy reports no argument /
     assignment / return / index / item whose kind is another one than declared, in the given modules.  (The pinned tree is
@@ -569,7 +569,7 @@ def kinds_not_confused(ctx: Ctx, rule: str, modules: Iterable[str], what: str) -
     hits = []
     for e in getattr(ctx.types, "errors", []):
         m_ = re.match(r"(.*?):(\d+): error: (.*)\[(arg-type|assignment|return-value|index|dict-item|list-item|call-overload)\]\s*$", e)
-        if m_ and m_.group(1).replace("\\", "/") in rels and any(re.search(r"\b" + k + r"\b", m_.group(3)) for k in kinds):
+        if m_ and m_.group(1).replace("\\", "/") in rels and (any(re.search(r"\b" + k + r"\b", m_.group(3)) for k in kinds) or any(f'"{c_}"' in m_.group(3) for c_ in callees)):
             hits.append((m_.group(1), int(m_.group(2)), m_.group(3).strip()))
     if not hits:
         rep.ok(rule, "dds", f"no value of one kind ({', '.join(sorted(kinds))}) is used where another is declared, in {sorted(rels.values())}", "dds/")
